@@ -80,7 +80,9 @@ CMD_TEXTS = ["GETINFO version", "GETINFO ns/all", "GETCONF SocksPort", "SIGNAL N
              "GETINFO circuit-status", "FOO bar baz", "X",
              # "verbatim": blanks, tabs and quoting inside a command are the caller's business
              'SETCONF ContactInfo="Jane  Doe   <j@example.org>"', "GETCONF ", "SETCONF  Nickname=a\tb ",
-             "  GETINFO   version", 'SETCONF Log="notice file /tmp/a\\ b"']
+             "  GETINFO   version", 'SETCONF Log="notice file /tmp/a\\ b"',
+             # characters that mean something to str.format / % (error texts quote the command)
+             "SETCONF ExitNodes={us},{ca} ExcludeNodes={", "SETCONF ContactInfo=100%s %(x)d {0} {why}"]
 
 
 def commands(long=True, max_parts=5):
